@@ -52,6 +52,8 @@ class _Shrinker:
         self.round_mode = True
         self.screen = screen
         self.screened = 0
+        self.screen_ok = 0
+        self.screen_bad = 0
 
     # ------------------------------------------------------------------ evaluation
     def same(self, res: dict) -> bool:
@@ -73,10 +75,12 @@ class _Shrinker:
             except ValueError:
                 continue
             valid.append((i, what, cand))
+        screened = False
         if self.screen is not None and valid:
             hits = self.screen([c for _, _, c in valid], self.clause)
             self.screened += len(valid)
             valid = [(i, what, hit) for (i, what, _), hit in zip(valid, hits) if hit is not None]
+            screened = True
         pos = 0
         while pos < len(valid) and self.used < self.budget:
             group = valid[pos : pos + min(self.batch, self.budget - self.used)]
@@ -92,8 +96,19 @@ class _Shrinker:
                     self.best, self.best_res = cand, res
                     if self.log:
                         self.log(f'shrink: {what} -> {program.count_statements(cand)} statements ({self.used} executions)')
+                    if screened:
+                        self.screen_ok += 1
                     return i
+                if screened:
+                    self.screen_bad += 1
             pos += len(group)
+            if screened and self.screen_bad >= 6 and self.screen_bad > 2 * self.screen_ok:
+                # the in-process hints do not hold up in fresh processes: the implementation under test
+                # evidently keeps state across runs.  From here on every candidate goes to a new process.
+                self.screen = None
+                if self.log:
+                    self.log('shrink: screening disabled (hints unreliable)')
+                break
         return None
 
     def variant(self, mutate: Callable[[dict], None]) -> dict:
@@ -129,11 +144,12 @@ class _Shrinker:
                 progress = True
         return progress
 
-    def ddmin_list(self, what: str, getter: Callable[[dict], list]) -> bool:
+    def ddmin_list(self, what: str, getter: Callable[[dict], list], max_exec: int | None = None) -> bool:
         """Classic ddmin (complement removal) over a list inside the spec."""
         progress = False
         n = 2
-        while self.used < self.budget:
+        stop_at = self.budget if max_exec is None else min(self.budget, self.used + max_exec)
+        while self.used < stop_at:
             items = getter(self.best)
             size = len(items)
             if size == 0:
@@ -232,7 +248,7 @@ class _Shrinker:
         """Fewest hand-overs: ddmin over the per-actor switch list."""
         if self.best.get('world') != 'thread' or not self.best.get('switches'):
             return False
-        return self.ddmin_list('switches', lambda s: s['switches'])
+        return self.ddmin_list('switches', lambda s: s['switches'], max_exec=48)
 
     def phase_decisions(self) -> bool:
         dec = self.best.get('decisions')
@@ -247,18 +263,19 @@ class _Shrinker:
     def _phase_decisions(self) -> bool:
         if self.first_success([('no recorded decisions', self.variant(lambda s: s.__setitem__('decisions', [])))]) is not None:
             return True
-        return self.ddmin_list('decisions', lambda s: s['decisions'])
+        return self.ddmin_list('decisions', lambda s: s['decisions'], max_exec=48)
 
     def run(self) -> None:
         progress = True
         rounds = 0
-        self.round_mode = True
-        while (progress or rounds < 2) and self.used < self.budget and rounds < 6:
+        idle = 0  # consecutive rounds without progress (one per replay mode is enough to stop)
+        thread_world = self.best.get('world') == 'thread'
+        while self.used < self.budget and rounds < 8 and idle < (2 if thread_world else 1):
             rounds += 1
-            progress = False
             # odd rounds replay candidates from the per-actor switch list, even rounds from the flat
             # decision list: schedule-dependent failures survive different edits under each
             self.by_switches = self.round_mode = rounds % 2 == 1
+            progress = False
             progress |= self.phase_global()
             for ai in range(len(self.best['programs'])):
                 if self.best['programs'][ai]:
@@ -267,6 +284,7 @@ class _Shrinker:
             progress |= self.phase_leaves()
             progress |= self.phase_switches()
             progress |= self.phase_decisions()
+            idle = 0 if progress else idle + 1
         trimmed = trim(self.best)
         if trimmed != self.best and self.used < self.budget + 1:
             self.first_success([('trim empty trailing actors', trimmed)])
@@ -281,7 +299,21 @@ def minimise(
     log: Callable[[str], None] | None = None,
     screen: Callable[[list[dict], str], list] | None = None,
 ) -> tuple[dict, dict | None, int]:
-    """Returns (minimal spec, its result or None if nothing smaller failed, executions used)."""
-    sh = _Shrinker(spec, clause, execute_many, budget, batch, log, screen)
+    """Returns (minimal spec, its result or None if nothing smaller failed, executions used).
+
+    Stage 1 evaluates every candidate in a brand-new process.  If what is left is still large and
+    lives in the thread world (a schedule-dependent failure: deleting a statement shifts the schedule
+    and the failure disappears), stage 2 goes on with in-process screening under alternative
+    scheduler seeds (`screen`), every hit still being confirmed in a brand-new process.
+    """
+    sh = _Shrinker(spec, clause, execute_many, budget, batch, log, None)
     sh.run()
-    return sh.best, sh.best_res, sh.used
+    used = sh.used
+    if screen is not None and sh.best.get('world') == 'thread' and program.count_statements(sh.best) > 6:
+        start = sh.best
+        sh2 = _Shrinker(sh.best, clause, execute_many, budget, batch, log, screen)
+        sh2.run()
+        used += sh2.used
+        if sh2.best_res is not None and program.count_statements(sh2.best) < program.count_statements(start):
+            return sh2.best, sh2.best_res, used
+    return sh.best, sh.best_res, used
